@@ -3,6 +3,8 @@ package main
 import (
 	"fmt"
 	"math/rand"
+	"strconv"
+	"time"
 )
 
 // Generators shared by cmd/c01 and cmd/c04: pools, configuration and option generators.
@@ -81,7 +83,7 @@ func genWriteOpts(r *rand.Rand, op string, cur *rmsg) []string {
 	var o []string
 	p := func(pct int) bool { return r.Intn(100) < pct }
 	if p(20) {
-		o = append(o, fmt.Sprintf("wt=%d", r.Intn(50)))
+		o = append(o, "wt="+genInstant(r))
 	}
 	if op != "del" {
 		if p(35) {
@@ -163,4 +165,26 @@ func genReadOpts(r *rand.Rand, list bool) []string {
 		o = append(o, "inc="+pick(r, incPool))
 	}
 	return o
+}
+
+// genInstant draws a write time: mostly small instants around the clock's readings (so they collide
+// with readings and go backwards between writes), and the boundary instants of time.Time: the zero
+// value, the Unix epoch, before the epoch, far future, whole seconds and sub-second nanos.
+func genInstant(r *rand.Rand) string {
+	switch r.Intn(12) {
+	case 0, 1:
+		return zeroInstant // time.Time{}
+	case 2:
+		return showTime(time.Unix(0, 0))
+	case 3:
+		return showTime(time.Unix(-5, 7)) // before the epoch, with nanos
+	case 4:
+		return showTime(time.Unix(1<<40, 0)) // far future
+	case 5:
+		return showTime(time.Unix(clockBase+int64(r.Intn(3)), int64(r.Intn(2))*999_999_999))
+	case 6:
+		return strconv.Itoa(-1 - r.Intn(5)) // just before the clock's origin
+	default:
+		return strconv.Itoa(r.Intn(50)) // nanoseconds after the origin: equal to / earlier than / later than readings
+	}
 }
